@@ -1,6 +1,8 @@
-(* Decimal numerals on byte lists: itoa models strconv.Itoa / fmt's %d, atoi models strconv.Atoi
-   (optional sign, at least one digit, nothing else; machine ints are unbounded Z, so the range
-   error of Atoi is outside the model).  Main lemma: atoi (itoa n) = Some n for every n. *)
+(* Decimal numerals on byte lists: itoa models strconv.Itoa / fmt's %d, atoi the syntax of
+   strconv.Atoi (optional sign, at least one digit, nothing else) on unbounded Z, and atoi64 is
+   strconv.Atoi itself: a value outside int64 is an error.  wrap64 is Go's int arithmetic (two's
+   complement, 64 bits).  Main lemmas: atoi (itoa n) = Some n for every n; atoi64 (itoa n) =
+   Some n for every n an int holds. *)
 From Coq Require Import NArith ZArith List Bool Lia.
 Import ListNotations.
 Local Open Scope Z_scope.
@@ -42,6 +44,19 @@ Definition atoi (s : bytes) : option Z :=
   | 45%N :: s' => match atoi_nat s' with Some v => Some (- v) | None => None end
   | 43%N :: s' => atoi_nat s'
   | _ => atoi_nat s
+  end.
+
+(* ---- machine ints ---- *)
+Definition min_int64 : Z := -9223372036854775808.
+Definition max_int64 : Z := 9223372036854775807.
+Definition in_int64 (z : Z) : bool := (min_int64 <=? z) && (z <=? max_int64).
+Definition wrap64 (z : Z) : Z := (z + 9223372036854775808) mod 18446744073709551616 - 9223372036854775808.
+
+(* strconv.Atoi: syntax as atoi, "value out of range" beyond int64 *)
+Definition atoi64 (s : bytes) : option Z :=
+  match atoi s with
+  | Some v => if in_int64 v then Some v else None
+  | None => None
   end.
 
 (* ---------------------------------------------------------------- proofs *)
@@ -172,3 +187,30 @@ Proof.
   unfold itoa. destruct (n <? 0) eqn:E; [discriminate|].
   apply Z.ltb_ge in E. apply itoa_nat_spec. exact E.
 Qed.
+
+(* ---------------------------------------------------------------- machine ints *)
+Lemma in_int64_iff z : in_int64 z = true <-> min_int64 <= z <= max_int64.
+Proof.
+  unfold in_int64. rewrite andb_true_iff, !Z.leb_le. tauto.
+Qed.
+
+Lemma wrap64_id z : in_int64 z = true -> wrap64 z = z.
+Proof.
+  intros H. apply in_int64_iff in H. unfold min_int64, max_int64 in H. unfold wrap64.
+  rewrite Z.mod_small by lia. lia.
+Qed.
+
+Lemma wrap64_in z : in_int64 (wrap64 z) = true.
+Proof.
+  apply in_int64_iff. unfold wrap64, min_int64, max_int64.
+  pose proof (Z.mod_pos_bound (z + 9223372036854775808) 18446744073709551616 ltac:(lia)). lia.
+Qed.
+
+Theorem itoa_atoi64 n : in_int64 n = true -> atoi64 (itoa n) = Some n.
+Proof. intros H. unfold atoi64. rewrite itoa_atoi, H. reflexivity. Qed.
+
+(* a bound that leaves room for every sum and difference the formatters and readers form *)
+Definition fits (z : Z) : Prop := -2305843009213693952 <= z <= 2305843009213693952.
+
+Lemma fits_int64 z : -4611686018427387904 <= z <= 4611686018427387904 -> in_int64 z = true.
+Proof. intros H. apply in_int64_iff. unfold min_int64, max_int64. lia. Qed.
